@@ -301,7 +301,7 @@ def st_history(draw, gp2=False, big_ok=True, allow=(), force=None):
         if hs.rxns:
             ops.append(dict(op="fit", **_draw_fitargs(draw)))
             ops.append(dict(op="lik", **_draw_fitargs(draw)))
-        final = draw(st.sampled_from([[], ["fresh"], ["ladder"], ["map"], ["fresh", "ladder", "map"]]))
+        final = draw(st.sampled_from([[], ["fresh"], ["ladder"], ["map"], ["fresh", "ladder", "map"], ["retrain"], ["fresh", "retrain"]]))
     else:
         # short fixed scripts for the reproducers of recorded defects
         allsys = list(range(nsys))
@@ -824,6 +824,41 @@ class Run:
         else:
             ctx.event("ladder_residual_limited_by_rank")
 
+    def final_retrain(self):
+        """a second training round on the SAME model and kernel objects: new control points (the same candidate systems,
+        every dense-point index shifted by one), every system stored again, reactions reset and re-added, fit.  The
+        weights must solve the documented system for the control points now in force (K_mm, K_mn, labels and noises all
+        recomputed by the model); nothing of the first round may survive in the objects."""
+        case, ctx = self.case, self.ctx
+        rx = list(self.lastfit_rxns)
+        x, smin = self.lastfit_args
+        pick2 = [[isys, [int(p) + 1 for p in pts]] for isys, pts in case["ctrl"]["pick"]]
+        x0t = self.mod.ctrl_x0t(pick2)
+        if not case["ctrl"]["reduce"]:
+            x0t = self.well_conditioned(x0t)
+        self.x0t_list = x0t
+        with quiet():
+            self.gp.set_control_points([a.copy() for a in x0t], reduce=case["ctrl"]["reduce"])
+        self.ctrl = {ik: np.array(self.dk[ik].X1ctrl, dtype=float, order="C") for ik in range(self.nk)}
+        self.cache = {}
+        self.check_ctrl()
+        self.hs = G.HistState([case["kernels"][ik]["component"] for ik in self.order],
+                              [s["orbs"] for s in case["systems"]],
+                              modes=[case["kernels"][ik]["mode"] for ik in self.order],
+                              allow=case.get("allow", []), gp2=case["gp2"])
+        with quiet():
+            self.gp.reset_reactions()
+        self.lastalpha = None
+        for op in case["ops"]:
+            if op["op"] == "store":
+                self.op_store(op)
+        self.op_add(rx)
+        if len(self.hs.rxns) != len(rx):
+            ctx.event("retrain_skipped(reaction not addable)")
+            return
+        ctx.event("retrained_on_same_objects")
+        self.op_fit({"op": "fit", "x": None if x is None else [float(v) for v in x], "smin": smin})
+
     def final_map(self):
         """the weights are those of the documented predictive function f(x) = sum_a k(x, x~_a) alpha_a: the mapped
         model integrated over a stored system equals covariance-vector . alpha + baseline"""
@@ -969,6 +1004,8 @@ def run_history(case, ctx, tag):
             final_fresh(case, ctx, run, os.path.join(root, "b"))
         if "ladder" in fin and rx:
             run.final_ladder()
+        if "retrain" in fin and run.lastfit is not None and rx:
+            run.final_retrain()
 
 
 def final_fresh(case, ctx, run, root):
@@ -1016,7 +1053,7 @@ RULE = ("history = synthetic data set on disk (2-6 systems, 6-90 points, 2.5% of
         "drawn operation list (store_mol_covs(subset, get_orb_deriv None/True/False/per-kernel list, get_correlation), "
         "add_reactions, reset_reactions, fit(), fit(x,sigma_min), compute_likelihood, permute-and-re-add, reset-and-re-add, "
         "fit without reactions) + final stages (fresh model with reversed kernel/system/reaction order; noise ladder "
-        "1..1e-3; mapped model integral). Oracle: independent numpy model of covariance vectors, baselines, "
+        "1..1e-3; mapped model integral; a second training round on the same model and kernel objects with shifted control points, all systems stored again, reactions reset and re-added). Oracle: independent numpy model of covariance vectors, baselines, "
         "occupation-derivative vectors (complex step), reaction rows/labels/noises from counts, units and options; then "
         "alpha vs Kmm^-1 Kmn (sum_k Knm Kmm^-1 Kmn + Sigma + eps)^-1 y with eps=1e-9 in both solves. Tolerances: backward "
         "error of both linear systems 1e-9 (no condition number); prediction space and residual law 1e-8 relative plus a "
